@@ -72,14 +72,17 @@ def site_of( src, node ):
 
 class Src:
     """One parsed source file: AST with parents, qualified-name index."""
-    def __init__( self, root, rel ):
+    def __init__( self, root, rel, text=None ):
         self.rel = rel
         self.path = os.path.join( root, rel )
-        try:
-            with open( self.path, 'rb' ) as f:
-                raw = f.read()
-        except OSError as exc:
-            raise AnalysisError( 'anchor file missing: %s (%s)' % ( rel, exc ))
+        if text is not None:
+            raw = text.encode( 'utf-8' )			# an in-memory variant of the file (checker self-test)
+        else:
+            try:
+                with open( self.path, 'rb' ) as f:
+                    raw = f.read()
+            except OSError as exc:
+                raise AnalysisError( 'anchor file missing: %s (%s)' % ( rel, exc ))
         self.digest = hashlib.sha256( raw ).hexdigest()
         self.text = raw.decode( 'utf-8', 'replace' )
         try:
@@ -161,13 +164,14 @@ class Src:
 
 class Model:
     """Lazy table of parsed files of the repository under analysis."""
-    def __init__( self, root=None ):
+    def __init__( self, root=None, overrides=None ):
         self.root = root or REPO
         self._src = {}
+        self.overrides = dict( overrides or {} )		# rel -> replacement text (self-test variants only)
 
     def src( self, rel ):
         if rel not in self._src:
-            self._src[rel] = Src( self.root, rel )
+            self._src[rel] = Src( self.root, rel, text=self.overrides.get( rel ))
         return self._src[rel]
 
     def exists( self, rel ):
@@ -204,8 +208,8 @@ def rule( rid, props, floor=0, tier='quick', doc='' ):
 
 
 class Ctx:
-    def __init__( self, root=None, tier='quick' ):
-        self.model = Model( root )
+    def __init__( self, root=None, tier='quick', overrides=None ):
+        self.model = Model( root, overrides )
         self.tier = tier
         self._cache = {}
 
